@@ -20,14 +20,10 @@ import (
 	"encoding/json"
 	"flag"
 	"fmt"
-	"math"
-	"math/big"
 	"os"
-	"runtime"
 	"runtime/debug"
 	"sort"
 	"strings"
-	"sync"
 	"time"
 
 	sdkmath "cosmossdk.io/math"
@@ -40,7 +36,6 @@ import (
 	consensustypes "github.com/palomachain/paloma/v2/x/consensus/types"
 	evmkeeper "github.com/palomachain/paloma/v2/x/evm/keeper"
 	evmtypes "github.com/palomachain/paloma/v2/x/evm/types"
-	skywaytypes "github.com/palomachain/paloma/v2/x/skyway/types"
 	"github.com/palomachain/paloma/v2/zzverif/explore"
 	"github.com/palomachain/paloma/v2/zzverif/report"
 	"github.com/palomachain/paloma/v2/zzverif/world"
@@ -66,10 +61,11 @@ func run(r *report.Run, shard, nshards int, replayFile string) {
 	idRoot := world.Fork(w.Root)
 	must(w.AddChain(idRoot, chainRefs[1], 56, 1))
 
-	r.Rule = "part 1: per action type (SubmitLogicCall, UpdateValset, CompassHandover, UploadUserSmartContract, UploadSmartContract, skyway batch) the full Cartesian product of per-field alphabets over the values handed to the bridge contract on delivery (plus turnstone id where the scheme hashes it) is evaluated on the real QueuedSignedMessage.GetBytesToSign (after the Marshal/UnmarshalInterface round trip the queue store performs) resp. NewInternalOutgingTxBatch/GetCheckpoint; tuple -> signing bytes must be injective on the whole product (hash-set collision check, evaluations = tuples, distinct = distinct signing bytes). part 2: BFS over Put / Replace / Remove / Replace-of-removed-id / Replace-of-foreign-id through ConsensusKeeper.PutMessageInQueue and DeleteJob on the four EVM queue types of two chains; every freshly allocated id > every id ever allocated, ids of all queues pairwise distinct and equal to the reference sets (states/transitions in coverage.id_states / id_transitions). part 3 (views): BFS over Sign / Estimate x3 + election + fee attachment / ReassignTo (real Queue.ReassignValidator) / ReassignOrphaned (real keeper path) / Replace / Remove / Enqueue (scheduler job) / ReplaceCompass (ActivateChainReferenceID, new deployment id) / Confirm / EstimateBatch x3 + skyway end-blocker, from a state with an open batch, a SubmitLogicCall and an UpdateValset, on the application's own keepers; the signing queries (QueuedMessagesForSigning per validator, MessagesInQueue, LastPendingBatchRequestByAddr per validator, BatchRequestByNonce) are polled before and after every operation and must return the reference bytes of each item as it now stands; after every operation a validator that never signs submits, on throw-away forks, really signed MsgAddMessagesSignatures / MsgConfirmBatch txs over the reference bytes (must be accepted) and over the reference with one delivered field changed - relayer (the previous one after a reassignment), deployment id, message id / batch nonce, gas estimate, payload / valset id / amount, fees, deadline / timeout - (must be rejected)"
+	r.Rule = "part 1: per action type (SubmitLogicCall, UpdateValset, CompassHandover, UploadUserSmartContract, UploadSmartContract, skyway batch) the full Cartesian product of per-field alphabets is evaluated twice: the real signing bytes (QueuedSignedMessage.GetBytesToSign after the Marshal/UnmarshalInterface round trip of the queue store, resp. NewInternalOutgingTxBatch/GetCheckpoint) and the DELIVERED key = calldata of the compass call (submit_logic_call / update_valset / compass_update_batch / deploy_contract / submit_batch) packed with the repository's compass ABI from the arguments VerifyAgainstTX assembles, plus the deployment id where the scheme hashes it; the packing is validated by the real VerifyAgainstTX on every tuple that differs from the base tuple in at most two fields. Oracle: tuples with the same signing bytes must have the same delivered key (hash-set check; evaluations = tuples, distinct = distinct signing bytes; coverage.distinct_delivered_* equals distinct_signing_bytes_* when the map delivered values -> signing bytes is a bijection). Optional / defaulted fields carry {unset, present-but-zero, default-1, default, default+1}: the fee object (nil, and every triple over {0, 99999, 100000, 100001}) and the gas estimate (0, 299999, 300000, 300001, 2^64-1). part 2: BFS over Put / Replace / Remove / Replace-of-removed-id / Replace-of-foreign-id through ConsensusKeeper.PutMessageInQueue and DeleteJob on the four EVM queue types of two chains; every freshly allocated id > every id ever allocated, ids of all queues pairwise distinct and equal to the reference sets (states/transitions in coverage.id_states / id_transitions). part 3 (views): BFS over Sign / Estimate x3 + election + fee attachment / ReassignTo (real Queue.ReassignValidator) / ReassignOrphaned (real keeper path) / Replace / Remove / Enqueue (scheduler job) / ReplaceCompass (ActivateChainReferenceID, new deployment id) / Confirm / EstimateBatch x3 + skyway end-blocker, from a state with an open batch, a SubmitLogicCall and an UpdateValset, on the application's own keepers; the signing queries (QueuedMessagesForSigning per validator, MessagesInQueue, LastPendingBatchRequestByAddr per validator, BatchRequestByNonce) are polled before and after every operation and must return the reference bytes of each item as it now stands; after every operation a validator that never signs submits, on throw-away forks, really signed MsgAddMessagesSignatures / MsgConfirmBatch txs over the reference bytes (must be accepted) and over the reference with one delivered field changed - relayer (the previous one after a reassignment), deployment id, message id / batch nonce, gas estimate, payload / valset id / amount, fees, deadline / timeout - (must be rejected)"
 	r.Assumptions = []string{
 		"'delivered' values are the arguments VerifyAgainstTX packs for the compass call of each action (eth_txable.go) and the submit_batch arguments for a batch; turnstone id is added where the present scheme hashes it (SubmitLogicCall, UpdateValset, UploadUserSmartContract, batch; not CompassHandover)",
-		"domains are at the level of the delivered value: 20-byte addresses (not hex spellings), bytes32 turnstone ids; fee payers are raw account bytes of 20 and 32 bytes (32-byte values that differ only in their first / only in their last 12 bytes, and one that ends in a 20-byte payer), pairwise distinct after the left-padding to bytes32 that VerifyAgainstTX applies (asserted at start-up), gas estimate and fees over elected/computed values (>= 1, Fees non-nil) - 0 / nil mean 'not yet elected' and collide with the pigeon defaults 300000 / 100000 by design; both defaults are in the alphabets",
+		"domains: addresses as 20-byte values, bytes32 turnstone ids; fee payers are raw account bytes of 20 and 32 bytes (32-byte values that differ only in their first / only in their last 12 bytes, and one that ends in a 20-byte payer), pairwise distinct after the left-padding to bytes32 that VerifyAgainstTX applies (asserted at start-up)",
+		"unset values of defaulted fields: a nil fee object and a gas estimate of 0 are never handed to the contract on this tree - estimate election and fee attachment happen in one step (CheckAndProcessEstimatedMessages), the relaying query withholds messages without an estimate (filters.HasGasEstimate), and VerifyAgainstTX dereferences m.Fees. The hashers substitute 100000/100000/100000 resp. 300000 'as pigeon does', so an unset value is put into the delivered class of that default (it may share signing bytes with the default and with nothing else). A PRESENT fee object is delivered as it is, including (0,0,0) (a relayer with fee multiplier 0), so every present triple must have its own signing bytes",
 		"UploadSmartContract is a plain contract-creation transaction: no compass call, no signature is handed to any contract. Only bytecode and message id are required to influence the bytes; Abi, ConstructorInput (appended to the creation code, compared byte-for-byte by VerifyAgainstTX) and Retries are NOT covered by the signing bytes and are excluded",
 		"address-typed values carried as hex strings (contract, deployer, validators, forward-call targets, relayer) reach the hashers and VerifyAgainstTX only through common.HexToAddress, so their delivered domain is 20 bytes; SubmitLogicCall.ContractAddress ([]byte) is read by neither side",
 		"not delivered, therefore excluded: SubmitLogicCall.Abi/ContractAddress/ExecutionRequirements/Retries, UploadUserSmartContract.BlockHeight/Id/Retries, CompassHandover.Id, Message.ChainReferenceID/CompassAddr/Assignee/AssignedAtBlockHeight, message id and turnstone id for CompassHandover, gas estimate for SubmitLogicCall/UploadUserSmartContract, batch PalomaBlockCreated/ChainReferenceID/Assignee and transfer id/sender/bridge tax",
@@ -97,17 +93,29 @@ func run(r *report.Run, shard, nshards int, replayFile string) {
 	}
 
 	// ---- part 1
-	acts := actions(w.App.AppCodec(), r.Thorough())
+	acts := actions(w.App.AppCodec(), newDelivery(w.Root), r.Thorough())
 	var total, distinct int64
 	for i, a := range acts {
 		if i%nshards != shard || only == "ids" || only == "views" {
 			continue
 		}
-		n, d := checkInjective(r, a)
-		total += n
-		distinct += d
+		st := checkInjective(r, a)
+		total += st.tuples
+		distinct += st.distinctBytes
 		r.Extra["alphabet_sizes_"+a.Name] = fieldSizes(a)
-		r.Extra["tuples_"+a.Name] = float64(n)
+		r.Extra["tuples_"+a.Name] = float64(st.tuples)
+		r.Extra["distinct_signing_bytes_"+a.Name] = float64(st.distinctBytes)
+		if st.distinctKeys > 0 {
+			r.Extra["distinct_delivered_"+a.Name] = float64(st.distinctKeys)
+		}
+		r.Extra["tuples_sharing_bytes_with_same_delivered_values_"+a.Name] = float64(st.shared)
+		if st.collisions > 0 {
+			r.Extra["collisions_"+a.Name] = float64(st.collisions)
+		}
+		if a.Verify != nil {
+			r.Extra["delivered_keys_accepted_by_VerifyAgainstTX_"+a.Name] = float64(st.verified)
+			r.Extra["delivered_keys_unset_value_not_verifiable_"+a.Name] = float64(st.verifySkipped)
+		}
 	}
 	if shard == 0 && only != "ids" && only != "views" {
 		// informational (see Assumptions): the constructor input of a plain compass
@@ -171,13 +179,6 @@ type field struct {
 	Show func(i int) string
 }
 
-type action struct {
-	Name   string
-	Fields []field
-	// Eval computes the real signing bytes of the tuple ix (one index per field).
-	Eval func(ix []int) ([]byte, error)
-}
-
 func fieldSizes(a action) map[string]int {
 	m := map[string]int{}
 	for _, f := range a.Fields {
@@ -203,6 +204,14 @@ func (a action) decode(lin int) []int {
 	return ix
 }
 
+func (a action) lin(ix []int) int {
+	n := 0
+	for i, f := range a.Fields {
+		n = n*f.N + ix[i]
+	}
+	return n
+}
+
 func (a action) show(ix []int) map[string]string {
 	m := map[string]string{}
 	for i, f := range a.Fields {
@@ -220,127 +229,6 @@ func (a action) diff(x, y []int) []string {
 	}
 	return d
 }
-
-// evalAll computes the signing bytes of tuples [0,n) in parallel.
-func evalAll(a action, lins []int) ([][32]byte, []error) {
-	out := make([][32]byte, len(lins))
-	errs := make([]error, len(lins))
-	g := runtime.GOMAXPROCS(0)
-	if g > 16 {
-		g = 16
-	}
-	var wg sync.WaitGroup
-	for k := 0; k < g; k++ {
-		wg.Add(1)
-		go func(k int) {
-			defer wg.Done()
-			for j := k; j < len(lins); j += g {
-				func() {
-					defer func() {
-						if p := recover(); p != nil {
-							errs[j] = fmt.Errorf("panic: %v", p)
-						}
-					}()
-					b, err := a.Eval(a.decode(lins[j]))
-					if err == nil && len(b) != 32 {
-						err = fmt.Errorf("signing bytes have length %d, want 32", len(b))
-					}
-					if err != nil {
-						errs[j] = err
-						return
-					}
-					copy(out[j][:], b)
-				}()
-			}
-		}(k)
-	}
-	wg.Wait()
-	return out, errs
-}
-
-func collisionReplay(a action, x, y []int, hx [32]byte) map[string]interface{} {
-	return map[string]interface{}{
-		"kind": "injectivity", "action": a.Name, "tuple_a": a.show(x), "tuple_b": a.show(y),
-		"index_a": x, "index_b": y, "signing_bytes": hex.EncodeToString(hx[:]),
-	}
-}
-
-func checkInjective(r *report.Run, a action) (n, distinct int64) {
-	size := a.size()
-	lins := make([]int, size)
-	for i := range lins {
-		lins[i] = i
-	}
-	hs, errs := evalAll(a, lins)
-	seen := make(map[[32]byte]int32, size)
-	for i := 0; i < size; i++ {
-		if errs[i] != nil {
-			r.Violate("eval-error:"+a.Name, fmt.Sprintf("%s: signing bytes of %v cannot be computed: %v", a.Name, a.show(a.decode(i)), errs[i]),
-				map[string]interface{}{"kind": "eval", "action": a.Name, "index_a": a.decode(i)})
-			continue
-		}
-		if j, ok := seen[hs[i]]; ok {
-			x, y := a.decode(int(j)), a.decode(i)
-			d := a.diff(x, y)
-			r.Violate("not-injective:"+a.Name+":"+strings.Join(d, "+"),
-				fmt.Sprintf("%s: two messages that differ in {%s} have the same signing bytes %x\n A = %v\n B = %v", a.Name, strings.Join(d, ", "), hs[i][:], a.show(x), a.show(y)),
-				collisionReplay(a, x, y, hs[i]))
-			continue
-		}
-		seen[hs[i]] = int32(i)
-		if i == size/3 || i == size-1 {
-			r.Sample(map[string]interface{}{"action": a.Name, "tuple": a.show(a.decode(i)), "signing_bytes": hex.EncodeToString(hs[i][:])})
-		}
-	}
-	return int64(size), int64(len(seen))
-}
-
-// checkPooled puts the sub-product {first two values of every field} of all
-// action types into one set: signing bytes of different action types must differ.
-func checkPooled(r *report.Run, acts []action) (n, distinct int64) {
-	type origin struct {
-		a   int
-		lin int
-	}
-	seen := map[[32]byte]origin{}
-	for ai, a := range acts {
-		var lins []int
-		size := a.size()
-		for lin := 0; lin < size; lin++ {
-			ok := true
-			for _, v := range a.decode(lin) {
-				if v > 1 {
-					ok = false
-					break
-				}
-			}
-			if ok {
-				lins = append(lins, lin)
-			}
-		}
-		hs, errs := evalAll(a, lins)
-		for i, lin := range lins {
-			if errs[i] != nil {
-				continue // reported by checkInjective
-			}
-			n++
-			if o, ok := seen[hs[i]]; ok {
-				if o.a != ai {
-					b := acts[o.a]
-					r.Violate("cross-action:"+b.Name+"/"+a.Name,
-						fmt.Sprintf("a %s and a %s have the same signing bytes %x\n A = %v\n B = %v", b.Name, a.Name, hs[i][:], b.show(b.decode(o.lin)), a.show(a.decode(lin))),
-						map[string]interface{}{"kind": "cross-action", "action_a": b.Name, "action_b": a.Name, "index_a": b.decode(o.lin), "index_b": a.decode(lin)})
-				}
-				continue
-			}
-			seen[hs[i]] = origin{ai, lin}
-		}
-	}
-	return n, int64(len(seen))
-}
-
-// --------------------------------------------------------------------------
-// alphabets (values at the level of what the contract receives)
 
 func pick[T any](thorough bool, quick []T, extra ...T) []T {
 	if thorough {
@@ -447,221 +335,6 @@ func baseMessage(turnstone, relayer string) *evmtypes.Message {
 		TurnstoneID: turnstone, ChainReferenceID: chainRefs[0], CompassAddr: world.CompassAddr,
 		Assignee: "palomavaloper1verif", AssignedAtBlockHeight: sdkmath.NewInt(101), AssigneeRemoteAddress: relayer,
 	}
-}
-
-var extMismatch int64
-var extMu sync.Mutex
-
-func actions(cdc codec.Codec, thorough bool) []action {
-	addrs := pick(thorough,
-		[]string{"0x0000000000000000000000000000000000000001", "0xFFfFfFffFFfffFFfFFfFFFFFffFFFffffFfFFFfF", "0x5A3E98aA540B2C3545120Ff8CA5C3B6a5D7Cf1e5"},
-		"0x0100000000000000000000000000000000000000")
-	relayers := pick(thorough,
-		[]string{"0x0000000000000000000000000000000000000002", "0xFFfFfFffFFfffFFfFFfFFFFFffFFFffffFfFFFfE", "0x28E9e9bfedEd29747FCc33ccA25b4B75f05E434B"},
-		"0x0000000000000000000000000000000000000001")
-	word1 := append(rep(0, 31), 1)
-	payloads := pick(thorough,
-		[][]byte{{}, {0xa9, 0x05, 0x9c, 0xbb}, word1},
-		append(append([]byte{}, word1...), word1...), rep(0, 31), rep(0, 33))
-	fees := pick(thorough, []uint64{1, 100_000, math.MaxUint64}, 2)
-	// Fee payer = SenderAddress, raw account bytes (20-byte key accounts, 32-byte
-	// contract / module-derived accounts) that both the hashers and
-	// VerifyAgainstTX left-pad with zeroes to bytes32; the contract is handed all
-	// 32 bytes. P32 ends in the 20-byte payer p20 (differs from the padded p20 in
-	// its first 12 bytes only); P32last / P32first differ from P32 only in the
-	// last / first 12 bytes.
-	p20 := rep(0x11, 20)
-	p32 := append(rep(0xaa, 12), p20...)
-	p32last := append(append(rep(0xaa, 12), rep(0x11, 8)...), rep(0xbb, 12)...)
-	p32first := append(rep(0xcc, 12), p20...)
-	payers := pick(thorough,
-		[][]byte{p20, append(rep(0x11, 19), 0x12), p32, p32last, p32first},
-		[]byte{}, append(append([]byte{}, p32[:31]...), 0x10))
-	mustDistinctPadded(payers)
-	ids := pick(thorough, []uint64{1, 256, 1 << 63}, math.MaxUint64)
-	deadlines := pick(thorough, []int64{1, 1_700_000_600, math.MaxInt64}, 0)
-	turnstones := pick(thorough,
-		[]string{world.CompassID, "verif-compass-2", "0123456789abcdef0123456789abcdef"},
-		"")
-	gases := pick(thorough, []uint64{1, 300_000, math.MaxUint64}, 21_000, 299_999)
-	valsetIDs := pick(thorough, []uint64{1, 2, 1 << 63}, 0)
-	powers := pick(thorough, []uint64{1, 1 << 32}, 0)
-	bytecodes := pick(thorough,
-		[][]byte{{0x60, 0x80}, {}, append([]byte{0x60, 0x80}, be64(1)...)},
-		rep(0xfe, 33))
-
-	var acts []action
-
-	// ---- SubmitLogicCall: contract, payload, three fees, fee payer, message id, deadline, relayer, turnstone id
-	acts = append(acts, action{
-		Name: "SubmitLogicCall",
-		Fields: []field{
-			scalar("contract", addrs, showAddr), scalar("payload", payloads, showBytes),
-			scalar("relayer_fee", fees, showU64), scalar("community_fee", fees, showU64), scalar("security_fee", fees, showU64),
-			scalar("fee_payer", payers, showBytes), scalar("message_id", ids, showU64), scalar("deadline", deadlines, showI64),
-			scalar("relayer", relayers, showAddr), scalar("turnstone_id", turnstones, showStr),
-		},
-		Eval: func(ix []int) ([]byte, error) {
-			m := baseMessage(turnstones[ix[9]], relayers[ix[8]])
-			m.Action = &evmtypes.Message_SubmitLogicCall{SubmitLogicCall: &evmtypes.SubmitLogicCall{
-				HexContractAddress: addrs[ix[0]], Abi: []byte("[]"), Payload: payloads[ix[1]],
-				Deadline: deadlines[ix[7]], SenderAddress: payers[ix[5]],
-				Fees: &evmtypes.Fees{RelayerFee: fees[ix[2]], CommunityFee: fees[ix[3]], SecurityFee: fees[ix[4]]},
-			}}
-			return turnstoneBytes(cdc, m, ids[ix[6]], 21_000)
-		},
-	})
-
-	// ---- UpdateValset: each validator, each power, valset id, relayer, gas estimate, turnstone id
-	vseq := seqs(len(addrs), 0, 3)
-	pseq := seqs(len(powers), 0, 3)
-	acts = append(acts, action{
-		Name: "UpdateValset",
-		Fields: []field{
-			listField("validators", vseq, func(i int) string { return addrs[i] }),
-			listField("powers", pseq, func(i int) string { return showU64(powers[i]) }),
-			scalar("valset_id", valsetIDs, showU64), scalar("relayer", relayers, showAddr),
-			scalar("gas_estimate", gases, showU64), scalar("turnstone_id", turnstones, showStr),
-		},
-		Eval: func(ix []int) ([]byte, error) {
-			m := baseMessage(turnstones[ix[5]], relayers[ix[3]])
-			vs := &evmtypes.Valset{ValsetID: valsetIDs[ix[2]]}
-			for _, v := range vseq[ix[0]] {
-				vs.Validators = append(vs.Validators, addrs[v])
-			}
-			for _, p := range pseq[ix[1]] {
-				vs.Powers = append(vs.Powers, powers[p])
-			}
-			m.Action = &evmtypes.Message_UpdateValset{UpdateValset: &evmtypes.UpdateValset{Valset: vs}}
-			return turnstoneBytes(cdc, m, 7, gases[ix[4]])
-		},
-	})
-
-	// ---- CompassHandover: each forward call (address, payload), deadline, relayer, gas estimate
-	fcAddrs, fcPayloads := addrs[:3], payloads[:3]
-	nElem := len(fcAddrs) * len(fcPayloads)
-	fseq := seqs(nElem, 0, 3)
-	acts = append(acts, action{
-		Name: "CompassHandover",
-		Fields: []field{
-			listField("forward_calls", fseq, func(i int) string {
-				return "(" + fcAddrs[i/len(fcPayloads)] + "," + showBytes(fcPayloads[i%len(fcPayloads)]) + ")"
-			}),
-			scalar("deadline", deadlines, showI64), scalar("relayer", relayers, showAddr), scalar("gas_estimate", gases, showU64),
-		},
-		Eval: func(ix []int) ([]byte, error) {
-			m := baseMessage(world.CompassID, relayers[ix[2]])
-			h := &evmtypes.CompassHandover{Deadline: deadlines[ix[1]], Id: 3}
-			for _, e := range fseq[ix[0]] {
-				h.ForwardCallArgs = append(h.ForwardCallArgs, evmtypes.CompassHandover_ForwardCallArgs{
-					HexContractAddress: fcAddrs[e/len(fcPayloads)], Payload: fcPayloads[e%len(fcPayloads)],
-				})
-			}
-			m.Action = &evmtypes.Message_CompassHandover{CompassHandover: h}
-			return turnstoneBytes(cdc, m, 7, gases[ix[3]])
-		},
-	})
-
-	// ---- UploadUserSmartContract: deployer, bytecode, three fees, fee payer, message id, deadline, relayer, turnstone id
-	acts = append(acts, action{
-		Name: "UploadUserSmartContract",
-		Fields: []field{
-			scalar("deployer", addrs, showAddr), scalar("bytecode", bytecodes, showBytes),
-			scalar("relayer_fee", fees, showU64), scalar("community_fee", fees, showU64), scalar("security_fee", fees, showU64),
-			scalar("fee_payer", payers, showBytes), scalar("message_id", ids, showU64), scalar("deadline", deadlines, showI64),
-			scalar("relayer", relayers, showAddr), scalar("turnstone_id", turnstones, showStr),
-		},
-		Eval: func(ix []int) ([]byte, error) {
-			m := baseMessage(turnstones[ix[9]], relayers[ix[8]])
-			m.Action = &evmtypes.Message_UploadUserSmartContract{UploadUserSmartContract: &evmtypes.UploadUserSmartContract{
-				DeployerAddress: addrs[ix[0]], Bytecode: bytecodes[ix[1]], Deadline: deadlines[ix[7]], SenderAddress: payers[ix[5]],
-				BlockHeight: 101, Id: 5,
-				Fees: &evmtypes.Fees{RelayerFee: fees[ix[2]], CommunityFee: fees[ix[3]], SecurityFee: fees[ix[4]]},
-			}}
-			return turnstoneBytes(cdc, m, ids[ix[6]], 21_000)
-		},
-	})
-
-	// ---- UploadSmartContract: bytecode, message id. The scheme is
-	// keccak(bytecode ++ be64(id)); the alphabet holds byte strings that are
-	// prefixes / extensions of each other by exactly such 8-byte words.
-	uscCodes := [][]byte{
-		{0x60, 0x80}, {}, be64(1), append([]byte{0x60, 0x80}, be64(1)...), append(append([]byte{0x60, 0x80}, be64(1)...), be64(1)...),
-		append([]byte{0x60, 0x80}, be64(256)...), append([]byte{0x60, 0x80}, 0, 0, 0, 0), {0x60, 0x80, 0}, {0x60}, rep(0, 8), rep(0, 16), rep(0xfe, 33),
-	}
-	uscIDs := []uint64{1, 2, 256, 1 << 56, 0x6080 << 48, 1 << 63, math.MaxUint64, 0x0000000100000000}
-	acts = append(acts, action{
-		Name:   "UploadSmartContract",
-		Fields: []field{scalar("bytecode", uscCodes, showBytes), scalar("message_id", uscIDs, showU64)},
-		Eval: func(ix []int) ([]byte, error) {
-			m := baseMessage(world.CompassID, relayers[0])
-			m.Action = &evmtypes.Message_UploadSmartContract{UploadSmartContract: &evmtypes.UploadSmartContract{
-				Bytecode: uscCodes[ix[0]], Abi: "[]", ConstructorInput: []byte{1, 2, 3}, Id: 9,
-			}}
-			return turnstoneBytes(cdc, m, uscIDs[ix[1]], 0)
-		},
-	})
-
-	// ---- skyway batch: token, each receiver, each amount, nonce, turnstone id, timeout, relayer, gas estimate
-	recv := addrs[:2]
-	amounts := pick(thorough,
-		[]sdkmath.Int{sdkmath.NewInt(1), sdkmath.NewIntFromBigInt(new(big.Int).Sub(new(big.Int).Lsh(big.NewInt(1), 256), big.NewInt(1)))},
-		sdkmath.NewIntFromUint64(1<<63))
-	nTx := len(recv) * len(amounts)
-	tseq := seqs(nTx, 0, 3)
-	nonces := pick(thorough, []uint64{1, 2, 1 << 63}, 0)
-	timeouts := pick(thorough, []uint64{1, 1_700_000_600, 1 << 63}, 0)
-	acts = append(acts, action{
-		Name: "SkywayBatch",
-		Fields: []field{
-			scalar("token", addrs, showAddr),
-			listField("transfers(receiver,amount)", tseq, func(i int) string {
-				return "(" + recv[i/len(amounts)] + "," + showInt(amounts[i%len(amounts)]) + ")"
-			}),
-			scalar("batch_nonce", nonces, showU64), scalar("turnstone_id", turnstones, showStr), scalar("timeout", timeouts, showU64),
-			scalar("relayer", relayers, showAddr), scalar("gas_estimate", gases, showU64),
-		},
-		Eval: func(ix []int) ([]byte, error) {
-			token, err := skywaytypes.NewEthAddress(addrs[ix[0]])
-			if err != nil {
-				return nil, err
-			}
-			var txs []*skywaytypes.InternalOutgoingTransferTx
-			for k, e := range tseq[ix[1]] {
-				dest, err := skywaytypes.NewEthAddress(recv[e/len(amounts)])
-				if err != nil {
-					return nil, err
-				}
-				tok, err := skywaytypes.NewInternalERC20Token(amounts[e%len(amounts)], addrs[ix[0]], chainRefs[0])
-				if err != nil {
-					return nil, err
-				}
-				txs = append(txs, &skywaytypes.InternalOutgoingTransferTx{
-					Id: uint64(k + 1), Sender: sdk.AccAddress(rep(0x33, 20)), DestAddress: dest, Erc20Token: tok, BridgeTaxAmount: sdkmath.ZeroInt(),
-				})
-			}
-			rel, err := skywaytypes.NewEthAddress(relayers[ix[5]])
-			if err != nil {
-				return nil, err
-			}
-			// exactly what BuildOutgoingTXBatch / UpdateBatchGasEstimate do
-			b, err := skywaytypes.NewInternalOutgingTxBatch(nonces[ix[2]], timeouts[ix[4]], txs, *token, 101, chainRefs[0],
-				turnstones[ix[3]], "palomavaloper1verif", rel, gases[ix[6]])
-			if err != nil {
-				return nil, err
-			}
-			// what ConfirmBatch / evidence checks recompute from the stored (external) batch
-			ext := b.ToExternal()
-			again, err := ext.GetCheckpoint(turnstones[ix[3]])
-			if err != nil || string(again) != string(b.BytesToSign) {
-				extMu.Lock()
-				extMismatch++
-				extMu.Unlock()
-			}
-			return b.BytesToSign, nil
-		},
-	})
-	return acts
 }
 
 func uscIgnoresConstructorInput(cdc codec.Codec) bool {
@@ -786,7 +459,7 @@ func (e *idEnv) spec(r *report.Run, shard, nshards int) explore.Spec {
 	g0 := &ghost{Live: make([][]uint64, len(e.qs))}
 	spec := explore.Spec{
 		Name: "ids", Init: []*explore.Node{{Ctx: e.root, Ghost: g0}}, Ops: e.ops, Hash: e.hash, Invariant: e.invariant,
-		MaxDepth: 6, Deadline: r.Deadline(140*time.Second, 25*time.Minute),
+		MaxDepth: 6, Deadline: r.Deadline(150*time.Second, 27*time.Minute),
 		ShardDepth: 3, Shard: shard, NShards: nshards,
 	}
 	if e.thorough {
@@ -1105,7 +778,7 @@ func doReplay(r *report.Run, w *world.World, idRoot sdk.Context, file string) {
 	}
 	// the replay file records indices into the alphabets of the tier it was found in
 	for _, thorough := range []bool{r.Thorough(), !r.Thorough()} {
-		acts := actions(w.App.AppCodec(), thorough)
+		acts := actions(w.App.AppCodec(), newDelivery(w.Root), thorough)
 		find := func(name interface{}) *action {
 			for i := range acts {
 				if acts[i].Name == name {
@@ -1128,13 +801,14 @@ func doReplay(r *report.Run, w *world.World, idRoot sdk.Context, file string) {
 		if want, ok := m["tuple_a"].(map[string]interface{}); ok && fmt.Sprint(want) != fmt.Sprint(toIface(a.show(x))) {
 			continue // other tier's alphabet
 		}
-		hx, errx := a.Eval(x)
-		hy, erry := bb.Eval(y)
+		hx, kx, errx := a.Eval(x)
+		hy, ky, erry := bb.Eval(y)
+		sameKey := m["kind"] != "cross-action" && keyOf(kx, a.lin(x)) == keyOf(ky, bb.lin(y))
 		r.Evaluations, r.DistinctN = 2, 1
 		r.Sample(map[string]interface{}{"A": a.show(x), "bytes_A": hex.EncodeToString(hx), "B": bb.show(y), "bytes_B": hex.EncodeToString(hy)})
 		if errx != nil || erry != nil {
 			r.Violate(v.Signature, fmt.Sprintf("signing bytes cannot be computed: %v / %v", errx, erry), v.Replay)
-		} else if string(hx) == string(hy) {
+		} else if string(hx) == string(hy) && !sameKey {
 			r.Violate(v.Signature, fmt.Sprintf("%s %v and %s %v have the same signing bytes %x", a.Name, a.show(x), bb.Name, bb.show(y), hx), v.Replay)
 		} else {
 			r.DistinctN = 2
